@@ -65,6 +65,7 @@ type FuncContract struct {
 	File      string
 	Line      int
 	NoSafety  bool
+	TrustedInRepo bool
 	Opaque    bool
 }
 
@@ -277,6 +278,9 @@ func (c *Contracts) LoadContractFile(path, pkgPrefix string, trusted bool) error
 			}
 		case kw == "pure":
 			cur.Pure = true
+		case kw == "trusted":
+			cur.Trusted = true // in-repo function whose body is outside the verifier's reach (unsafe): contract assumed, listed in evidence
+			cur.TrustedInRepo = true
 		case kw == "inline":
 			cur.Inline = true
 		case kw == "nosafety":
